@@ -48,9 +48,12 @@ MANIFEST = {
                      "Go fixed-point formula; the table n -> Q(n) printed by TLC is compared with CalculateQuorum as built from /repo/node and "
                      "as linked by the explorer (n = 0..255 and seeded n up to 10^5, validated by TLC), with the explorer's Push gate for VAAs naming a "
                      "non-current guardian set of another size (quorum-1 rejected, quorum accepted), and with the values of the quorum "
-                     "expressions and acceptance comparisons extracted from Messages.sol and governance.ral.",
+                     "expressions and acceptance comparisons extracted from Messages.sol and governance.ral. The node's use sites of the "
+                     "threshold (inbound signed VAAs with q-1, q, floor(2n/3), n-floor(n/3) signatures; the own publication decision, one "
+                     "observation at a time) are driven on the real processor for n = 1..19 and validated by TLC against Processor.tla.",
                 ref="6/C07", note=NOTE, technique="TLA+ model checking (TLC) of the BFT arithmetic + exhaustive comparison over the wire range with the "
-                                                  "Go function (two link targets) and the extracted contract formulas"),
+                                                  "Go function (two link targets) and the extracted contract formulas + trace validation of the "
+                                                  "node's use sites against Processor.tla"),
 }
 
 ASSUME = [
